@@ -181,8 +181,24 @@ func c06Cfg(c *Ctx) *RuleResult {
 			}
 		}
 		internal := false
-		for _, cs := range CallsTo([]*FuncUnit{u}, complete) {
-			if mentionsSelector(cs.Node, "Internal") {
+		failing := CallsTo([]*FuncUnit{u}, complete)
+		// ... or through a helper of this package that completes the task with INTERNAL
+		ast.Inspect(u.Decl.Body, func(n ast.Node) bool {
+			if hc, ok := n.(*ast.CallExpr); ok {
+				if h := calleeOf(info, hc); h != nil && h != complete && p.Decl(h) != nil && h.Pkg() != nil && relPkg(h.Pkg()) == schedPkg {
+					if hu := p.UnitOf(h); hu != nil {
+						for _, cs := range CallsTo([]*FuncUnit{hu}, complete) {
+							if mentionsSelector(hu.Decl.Body, "Internal") && cs.Node != nil {
+								failing = append(failing, Site{Unit: u, Node: hc})
+							}
+						}
+					}
+				}
+			}
+			return true
+		})
+		for _, cs := range failing {
+			if mentionsSelector(cs.Node, "Internal") || calleeOf(info, cs.Node.(*ast.CallExpr)) != complete {
 				for _, g := range flattenGuards(GuardsOf(info, u.Decl.Body, cs.Node)) {
 					if be, ok := ast.Unparen(g.Cond).(*ast.BinaryExpr); ok && g.Pos && be.Op == token.GEQ && fieldOf(info, be.X) == rc {
 						internal = true
@@ -301,9 +317,107 @@ func c06Rearm(c *Ctx) *RuleResult {
 				origins = append(origins, origin{w.Node, "register worker", false})
 			}
 		}
+		// the same events inside a helper that Synchronize calls: the call is the origin; the
+		// helper's failure return counts as "before the event" when no event of the helper can reach
+		// a return with a non-nil error
+		helperErrOK := map[ast.Node]bool{}     // call -> its error return happens before the events
+		existingOnlyErr := map[ast.Node]bool{} // call -> the helper only fails for a worker that already exists
+		ast.Inspect(u.Decl.Body, func(n ast.Node) bool {
+			hc, ok := n.(*ast.CallExpr)
+			if !ok {
+				return true
+			}
+			h := calleeOf(info, hc)
+			if h == nil || h.Pkg() == nil || relPkg(h.Pkg()) != schedPkg || h == rem || h == add || h == addSCQ {
+				return true
+			}
+			hu := p.UnitOf(h)
+			if hu == nil {
+				return true
+			}
+			hinfo := hu.Info()
+			var evs []ast.Node
+			what := ""
+			for _, cs := range CallsTo([]*FuncUnit{hu}, rem) {
+				if fieldOf(hinfo, cs.Node.(*ast.CallExpr).Args[0]) == wKey {
+					evs = append(evs, cs.Node)
+					what = "cancel worker cleanup"
+				}
+			}
+			for _, w := range FieldWrites([]*FuncUnit{hu}, workers, false) {
+				if _, ok := w.Node.(*ast.AssignStmt); ok {
+					evs = append(evs, w.Node)
+					if what == "" {
+						what = "register worker"
+					} else {
+						what += " / register worker"
+					}
+				}
+			}
+			if len(evs) == 0 {
+				return true
+			}
+			hg := NewFuncCFG(hinfo, hu.Decl.Body)
+			clean := true
+			for _, ev := range evs {
+				if reach, _ := hg.ReachableWithout(ev, nil, func(m ast.Node) bool {
+					ret, ok := m.(*ast.ReturnStmt)
+					return ok && lastResultIsNil(ret)
+				}); reach {
+					clean = false
+				}
+			}
+			helperErrOK[hc] = clean
+			onlyExisting := true
+			ast.Inspect(hu.Decl.Body, func(m ast.Node) bool {
+				ret, ok := m.(*ast.ReturnStmt)
+				if !ok || lastResultIsNil(ret) {
+					return true
+				}
+				okG := false
+				for _, gd := range flattenGuards(GuardsOf(hinfo, hu.Decl.Body, ret)) {
+					if id, ok := ast.Unparen(gd.Cond).(*ast.Ident); ok && gd.Pos && okSourceIsLookup(hu, id, workers) {
+						okG = true
+					}
+				}
+				if !okG {
+					onlyExisting = false
+				}
+				return true
+			})
+			existingOnlyErr[hc] = onlyExisting
+			origins = append(origins, origin{hc, what + " (in " + h.Name() + ")", false})
+			return true
+		})
+		// a return under `err != nil` where err is the result of such a helper call
+		errReturnOf := func(ret *ast.ReturnStmt, m map[ast.Node]bool) bool {
+			for _, gd := range flattenGuards(GuardsOf(info, u.Decl.Body, ret)) {
+				x, nonNil, ok := nilTestOf(gd)
+				if !ok || !nonNil {
+					continue
+				}
+				if id, ok := ast.Unparen(x).(*ast.Ident); ok {
+					for _, dc := range definingCalls(u, id) {
+						if m[dc] {
+							return true
+						}
+					}
+				}
+			}
+			return false
+		}
 		for _, o := range origins {
 			construct := constructOf(u, o.what)
 			barrier := isRearm
+			if hc, isHelper := o.n.(*ast.CallExpr); isHelper && helperErrOK[hc] {
+				barrier = func(n ast.Node) bool {
+					if isRearm(n) {
+						return true
+					}
+					ret, ok := n.(*ast.ReturnStmt)
+					return ok && errReturnOf(ret, map[ast.Node]bool{hc: true})
+				}
+			}
 			if o.tolerateExisting {
 				barrier = func(n ast.Node) bool {
 					if isRearm(n) {
@@ -311,6 +425,9 @@ func c06Rearm(c *Ctx) *RuleResult {
 					}
 					// a return taken when the worker already exists
 					if ret, ok := n.(*ast.ReturnStmt); ok {
+						if errReturnOf(ret, existingOnlyErr) {
+							return true
+						}
 						for _, gd := range flattenGuards(GuardsOf(info, u.Decl.Body, ret)) {
 							if id, ok := ast.Unparen(gd.Cond).(*ast.Ident); ok && gd.Pos {
 								if src := okSourceIsLookup(u, id, workers); src {
